@@ -6,29 +6,55 @@ use std::cmp::Ordering;
 
 use crate::{BinaryOp, Error, KValue, KotoVm, runtime_error};
 
-/// Sorts values in a slice using Koto operators for comparison.
-pub fn sort_values(vm: &mut KotoVm, arr: &mut [KValue]) -> Result<(), Error> {
-    let mut error = None;
+/// A stable in-place merge sort with a comparison that can fail
+///
+/// `slice::sort_by` isn't used for comparisons that are made by calling Koto operators: it may
+/// panic when the comparison doesn't implement a total order (and does so since Rust 1.81), which
+/// neither overridden operators nor a comparison that fails part way through can guarantee.
+///
+/// Sorted runs are merged in a scratch buffer and then written back, so the slice contains
+/// a permutation of its values at any time, also when an error is returned.
+pub fn try_sort_by<T: Clone, E>(
+    values: &mut [T],
+    mut compare: impl FnMut(&T, &T) -> Result<Ordering, E>,
+) -> Result<(), E> {
+    let len = values.len();
+    let mut scratch = Vec::with_capacity(len);
+    let mut width = 1;
 
-    arr.sort_by(|a, b| {
-        if error.is_some() {
-            return Ordering::Equal;
-        }
+    while width < len {
+        let mut start = 0;
+        while start + width < len {
+            let mid = start + width;
+            let end = (mid + width).min(len);
+            let (mut left, mut right) = (start, mid);
 
-        match compare_values(vm, a, b) {
-            Ok(ordering) => ordering,
-            Err(e) => {
-                error.get_or_insert(e);
-                Ordering::Equal
+            scratch.clear();
+            while left < mid && right < end {
+                // The left value is taken unless the right one is smaller, so the sort is stable
+                if compare(&values[right], &values[left])? == Ordering::Less {
+                    scratch.push(values[right].clone());
+                    right += 1;
+                } else {
+                    scratch.push(values[left].clone());
+                    left += 1;
+                }
             }
-        }
-    });
+            scratch.extend_from_slice(&values[left..mid]);
+            scratch.extend_from_slice(&values[right..end]);
+            values[start..end].clone_from_slice(&scratch);
 
-    if let Some(err) = error {
-        return Err(err);
+            start = end;
+        }
+        width *= 2;
     }
 
     Ok(())
+}
+
+/// Sorts values in a slice using Koto operators for comparison.
+pub fn sort_values(vm: &mut KotoVm, arr: &mut [KValue]) -> Result<(), Error> {
+    try_sort_by(arr, |a, b| compare_values(vm, a, b))
 }
 
 /// Returns a sorted copy of a slice of values, compared using a key function
@@ -51,27 +77,9 @@ pub fn sort_by_key(
         .collect::<Result<_, _>>()?;
 
     // Sort the data by key
-    let mut error = None;
-    keys_and_values.sort_by(|a, b| {
-        // If an error has occurred then short-circuit the sorting to exit as quickly as possible
-        if error.is_some() {
-            return Ordering::Equal;
-        }
+    try_sort_by(&mut keys_and_values, |a, b| compare_values(vm, &a.0, &b.0))?;
 
-        match compare_values(vm, &a.0, &b.0) {
-            Ok(ordering) => ordering,
-            Err(e) => {
-                error = Some(e);
-                Ordering::Equal
-            }
-        }
-    });
-
-    if let Some(error) = error {
-        Err(error)
-    } else {
-        Ok(keys_and_values)
-    }
+    Ok(keys_and_values)
 }
 
 /// Compares values using Koto operators.
